@@ -16,7 +16,7 @@ package jsonrpc
 //@ property C06 units: (*client).setupRequestChan$1, (*wsConn).handleCtxAsync, (*wsConn).handleResponse, (*wsConn).cancelCtx, (*wsConn).handleCall, (*wsConn).handleCall$2, (*wsConn).handleCall$3, (*handler).handle, (*wsConn).closeInFlight, (*RPCServer).ServeHTTP, (*handler).handleReader, httpClient$1, (*wsConn).handleFrame
 //@ property C15 units: (*handler).handleReader$1, (*wsConn).handleCall$1, (*lazyWriter).Write$1, websocketClient$2$1, (*RPCServer).handleWS$1, (*wsConn).handleWsConn, (*wsConn).handleCall, (*wsConn).closeInFlight, (*wsConn).nextWriter, (*wsConn).readFrame, (*wsConn).frameExecutor, (*client).sendRequest, (*client).setupRequestChan$1, (*wsConn).handleOutChans, (*wsConn).handleChanOut, withLazyWriter, (*lazyWriter).Write, (*lazyWriter).Write$1$1, (*RPCServer).handleWS
 //@ property C16 units: WithClientHandler$1, websocketClient$2$1, WithReverseClient$1$1, ExtractReverseClient, (*RPCServer).handleWS, (*RPCServer).ServeHTTP, (*client).setupRequestChan$1, (*wsConn).handleChanOut, websocketClient, WithClientHandlerAlias$1, (*wsConn).closeInFlight, (*wsConn).handleWsConn, (*wsConn).handleCall
-//@ property C07 units: (*client).makeOutChan$1, (*client).setupRequestChan, (*wsConn).handleOutChans, (*wsConn).handleOutChans$1, (*wsConn).handleChanOut, (*handler).handle, (*wsConn).handleResponse, (*wsConn).handleChanMessage, (*client).makeOutChan$1$1, (*client).makeOutChan$1$2, (*wsConn).handleFrame
+//@ property C07 units: (*client).makeOutChan$1, (*client).setupRequestChan, (*wsConn).handleOutChans, (*wsConn).handleOutChans$1, (*wsConn).handleChanOut, (*handler).handle, (*wsConn).handleResponse, (*wsConn).handleChanMessage, (*client).makeOutChan$1$1, (*client).makeOutChan$1$2, (*wsConn).handleFrame, (*param).MarshalJSON
 //@ property C08 units: (*client).makeOutChan$1, (*wsConn).setupPings$5$1, (*wsConn).handleChanOut, (*wsConn).handleOutChans, (*wsConn).handleChanClose, (*wsConn).closeChans, (*wsConn).handleChanMessage, (*wsConn).tryReconnect, (*wsConn).handleWsConn, (*client).makeOutChan$1$1, (*client).makeOutChan$1$2, (*wsConn).handleResponse
 //@ property C11 units: (*ErrClient).Error, (*ErrClient).Unwrap, WithErrors$1, WithServerErrors$1, (*client).setupRequestChan$1, (*handler).createError, (*Errors).Register, NewErrors, (*JSONRPCError).val, (*JSONRPCError).Error, (*rpcFunc).processResponse, (*rpcFunc).processError, (*handler).handle, (response).MarshalJSON, processFuncOut, (*wsConn).handleResponse, NewCustomClient
 //@ property C01 units: WithParamEncoder$1, WithParamDecoder$1, DecodeParams, NewCustomClient, httpClient, (*deadlineResetReader).Read, defaultConfig, defaultServerConfig, processFuncOut, (*param).MarshalJSON, (*param).UnmarshalJSON, (*client).makeRpcFunc, (*client).provide, (*rpcFunc).handleRpcCall, (*rpcFunc).processResponse, (*rpcFunc).processError, (*client).sendRequest, NewCustomClient$1, httpClient$1, (*client).setupRequestChan$1, (*handler).register, (*handler).handle, doCall, (response).MarshalJSON, (*wsConn).handleResponse, (*wsConn).handleCall, NewMethodNameFormatter$1, (*RPCServer).AliasMethod
@@ -53,11 +53,22 @@ package jsonrpc
 //@ unsync wsConn.incoming: replaced by the connection loop only while no reader goroutine is running (not checked)
 //@ unsync wsConn.chanCtr: accessed with sync/atomic only
 //@ -- prohibitions: these calls do not occur in the module; introducing one breaks the stated discipline
+//@ -- Contracts on declarations (decided without a code path): the wire format and the constants both peers rely on
+//@ static request-wire-shape: jsontag(#request, "Jsonrpc") == "jsonrpc" && jsontag(#request, "ID") == "id,omitempty" && jsontag(#request, "Method") == "method" && jsontag(#request, "Params") == "params" && jsontag(#request, "Meta") == "meta,omitempty" [C09,C04,C01,C02]
+//@ static frame-wire-shape: jsontag(#frame, "Jsonrpc") == "jsonrpc" && jsontag(#frame, "ID") == "id,omitempty" && jsontag(#frame, "Method") == "method,omitempty" && jsontag(#frame, "Params") == "params,omitempty" && jsontag(#frame, "Result") == "result,omitempty" && jsontag(#frame, "Error") == "error,omitempty" && jsontag(#frame, "Meta") == "meta,omitempty" [C09,C04,C01,C02]
+//@ static client-response-wire-shape: jsontag(#clientResponse, "Jsonrpc") == "jsonrpc" && jsontag(#clientResponse, "Result") == "result" && jsontag(#clientResponse, "ID") == "id" && jsontag(#clientResponse, "Error") == "error,omitempty" [C09,C01,C02,C11]
+//@ static error-object-wire-shape: jsontag(#JSONRPCError, "Code") == "code" && jsontag(#JSONRPCError, "Message") == "message" && jsontag(#JSONRPCError, "Meta") == "meta,omitempty" && jsontag(#JSONRPCError, "Data") == "data,omitempty" [C09,C11]
+//@ static protocol-error-codes: rpcParseError == -32700 && rpcInvalidRequest == -32600 && rpcMethodNotFound == -32601 && rpcInvalidParams == -32602 [C09,C12]
+//@ static user-codes-start-above-the-generic-code: FirstUserCode > 1 [C11]
+//@ static connection-error-code-is-the-registered-one: eTempWSError == -1111111 [C05,C11]
+//@ static builtin-method-names: wsCancel == "xrpc.cancel" && chValue == "xrpc.ch.val" && chClose == "xrpc.ch.close" [C12,C06,C07,C08]
+//@ static raw-params-is-its-own-type: #RawParams != #json.RawMessage [C01,C09,C12]
 //@ -- Core units: the properties overlap (a call that hangs breaks C01, C02 and C03 alike), so for the functions every
 //@ -- property of a group rests on, ALL clauses count for every property of the group, whatever their tags say.
 //@ core C01 C02 C03 C04 C05 C06 C16: (*wsConn).handleWsConn, (*wsConn).tryReconnect, (*wsConn).tryReconnect$1, (*wsConn).nextMessage, (*wsConn).readFrame, (*wsConn).closeInFlight, (*wsConn).handleResponse, (*wsConn).sendRequest, (*client).setupRequestChan, (*client).setupRequestChan$1, (*wsConn).handleCall, (*wsConn).frameExecutor, (*wsConn).handleFrame
 //@ core C07 C08 C09 C15: (*wsConn).handleOutChans, (*wsConn).handleOutChans$1, (*wsConn).handleChanOut, (*wsConn).handleChanMessage, (*wsConn).handleChanClose, (*wsConn).closeChans, (*client).makeOutChan$1, (*client).makeOutChan$1$1, (*client).makeOutChan$1$2
 //@ core C09 C12: (*handler).handle, (*handler).handleReader, rpcError, rpcError$1, doCall
+//@ core C01 C02 C04 C05 C11: (*rpcFunc).handleRpcCall, (*client).makeRpcFunc, (*rpcFunc).processResponse, (*rpcFunc).processError, (*client).sendRequest, processFuncOut, (*JSONRPCError).val, (*handler).createError
 //@ core C04 C09 C10 C13 C15: (*wsConn).handleCall, (*wsConn).readFrame, (*wsConn).frameExecutor
 //@ -- module-wide rules (global ...) of these properties are checked in EVERY function of the module, not only in the
 //@ -- units listed above: code added anywhere (a new helper, a new goroutine body, a callback) is held to them too
@@ -824,9 +835,9 @@ package jsonrpc
 
 //@ func (*param).MarshalJSON
 //@   ghost mres : U = nil
-//@   at call encoding/json.Marshal: assert marshals-the-wrapped-value: $0 == ifaceOf(p.v) && KindOf(rtypeOf(p.v)) != 0 [C01]
+//@   at call encoding/json.Marshal: assert marshals-the-wrapped-value: $0 == ifaceOf(p.v) && KindOf(rtypeOf(p.v)) != 0 [C01,C07]
 //@   ensures raw-bytes-pass-through: KindOf(rtypeOf(p.v)) == 0 ==> result0 == p.data && result1 == nil && calls(Marshal) == 0 [C01]
-//@   ensures value-marshalled-once: KindOf(rtypeOf(p.v)) != 0 ==> calls(Marshal) == 1 [C01]
+//@   ensures value-marshalled-once: KindOf(rtypeOf(p.v)) != 0 ==> calls(Marshal) == 1 [C01,C07]
 
 //@ func WithErrors$1
 //@   at store Config.errors: assert error-table-passed-through-unchanged: $val != nil && $val.byCode == es.byCode && $val.byType == es.byType [C05,C11]
